@@ -25,6 +25,8 @@ pub fn v0() -> Vec<Val> {
         Val::s(""),
         Val::s("a"),
         Val::s("b"),
+        // a string that looks like a number is still a string
+        Val::s("2"),
     ]
 }
 
@@ -45,6 +47,7 @@ pub fn column_values() -> Vec<(&'static str, Val)> {
         ("sn", Val::Null),
         ("sa", Val::s("a")),
         ("sb", Val::s("b")),
+        ("s2", Val::s("2")),
     ]
 }
 
